@@ -21,7 +21,7 @@ type Case struct {
 	A    int     `json:"a"`
 	B    int     `json:"b"`
 	N    int     `json:"n"`
-	Fix  int     `json:"fix,omitempty"` // fixture construction order, see kit.RootWindow
+	Fix  int     `json:"fix,omitempty"` // fixture construction order, see kit.RootWindow; 3 = buffer produced by a growing Append (see runGrown)
 	Vals []int64 `json:"vals"`          // 0..127: representable in every element type
 }
 
@@ -47,7 +47,18 @@ func init() {
 
 func Check(c *Case) kit.Result {
 	f, ok := table[c.T]
-	if !ok || c.C < 1 || c.Kr < 0 || c.A < 0 || c.A > c.B || c.B > c.Kr || c.C*c.Kr > 1<<20 || c.N < 0 || c.N > 1<<21 || len(c.Vals) == 0 || c.Fix < 0 || c.Fix > 2 {
+	if ok && c.Fix == 3 {
+		if c.C < 2 || c.C > 64 || c.A < 0 || c.A >= c.C || c.B < 1 || c.B > 1<<12 || c.N < 0 || c.N > 1<<16 || len(c.Vals) == 0 {
+			return kit.Result{}
+		}
+		for _, v := range c.Vals {
+			if v < 0 || v > 127 {
+				return kit.Result{}
+			}
+		}
+		return f(c)
+	}
+	if !ok || c.C < 1 || c.Kr < 0 || c.A < 0 || c.A > c.B || c.B > c.Kr || c.C*c.Kr > 1<<20 || c.N < 0 || c.N > 1<<21 || len(c.Vals) == 0 || c.Fix < 0 || c.Fix > 3 {
 		return kit.Result{}
 	}
 	for _, v := range c.Vals {
@@ -58,7 +69,87 @@ func Check(c *Case) kit.Result {
 	return f(c)
 }
 
+// runGrown: the buffer under test is the result of a growing Append onto a
+// buffer that ends in a partial frame (A single samples, then a source of B
+// samples), so its capacity is whatever the runtime chose and need not be a
+// whole number of frames. AppendSample must fill it to exactly that capacity
+// and never change the capacity or the storage.
+func runGrown[T signal.SignalTypes](c *Case) (res kit.Result) {
+	C := c.C
+	if c.A >= C || c.B > 1<<12 {
+		return
+	}
+	b := signal.Alloc[T](signal.Allocator{Channels: C, Length: 0, Capacity: 1})
+	for k := 0; k < c.A; k++ {
+		b.AppendSample(T(kit.PartialVal(k)))
+	}
+	src := signal.Alloc[T](signal.Allocator{Channels: C, Length: 0, Capacity: c.B/C + 1})
+	for k := 0; k < c.B; k++ {
+		src.AppendSample(T(1 + k%90))
+	}
+	if p, v := kit.Try(func() { b.Append(src) }); p {
+		res.Failf("fixture: Append of %d samples onto %d samples (%d ch) panicked: %v", c.B, c.A, C, v)
+		return
+	}
+	ln, cp := b.Len(), b.Cap()
+	if ln != c.A+c.B || cp < ln {
+		res.Failf("fixture: after Append Len %d Cap %d, want Len %d", ln, cp, c.A+c.B)
+		return
+	}
+	if cp%C != 0 {
+		res.Class("capacityNotWholeFrames")
+	}
+	res.Class("bufferFromGrowingAppend")
+	alias := b.Slice(0, b.Capacity()) // sees the whole frames of the storage
+	before := make([]T, ln)
+	for i := range before {
+		before[i] = b.Sample(i)
+	}
+	for j := 0; j < c.N; j++ {
+		v := T(c.Vals[j%len(c.Vals)])
+		what := fmt.Sprintf("call %d AppendSample(%s) on a grown buffer (len=%d,cap=%d samples, %d ch)", j, kit.Str(v), ln, cp, C)
+		if p, pv := kit.Try(func() { b.AppendSample(v) }); p {
+			res.Failf("%s: panic: %v", what, pv)
+			return
+		}
+		if ln < cp {
+			ln++
+			if b.Len() != ln {
+				res.Failf("%s: buffer is not full but Len is %d, want %d", what, b.Len(), ln)
+				return
+			}
+			if got := b.Sample(ln - 1); !kit.Same(got, v) {
+				res.Failf("%s: position Len-1=%d reads %s", what, ln-1, kit.Str(got))
+				return
+			}
+			if ln-1 < alias.Len() {
+				if got := alias.Sample(ln - 1); !kit.Same(got, v) {
+					res.Failf("%s: a view of the same storage reads %s at position %d (storage no longer shared?)", what, kit.Str(got), ln-1)
+					return
+				}
+			}
+		}
+		if b.Len() != ln || b.Cap() != cp || b.Length() != kit.CeilDiv(ln, C) || b.Capacity() != cp/C {
+			res.Failf("%s: Len/Cap/Length/Capacity = %d/%d/%d/%d, want %d/%d/%d/%d", what, b.Len(), b.Cap(), b.Length(), b.Capacity(), ln, cp, kit.CeilDiv(ln, C), cp/C)
+			return
+		}
+	}
+	for i := range before {
+		if got := b.Sample(i); !kit.Same(got, before[i]) {
+			res.Failf("after %d calls: earlier sample %d changed from %s to %s", c.N, i, kit.Str(before[i]), kit.Str(got))
+			return
+		}
+	}
+	if c.N > cp-(c.A+c.B) {
+		res.Class("crossesCapacity")
+	}
+	return
+}
+
 func run[T signal.SignalTypes](c *Case) (res kit.Result) {
+	if c.Fix == 3 {
+		return runGrown[T](c)
+	}
 	C := c.C
 	root, w := kit.RootWindow[T](C, c.Kr, c.A, c.B, 0, c.Fix)
 	model := kit.RootModel[T](C, c.Kr)
@@ -154,6 +245,13 @@ func Gen(t *rapid.T) *Case {
 		c.N = rapid.IntRange(0, spare+2*c.C+3).Draw(t, "n")
 	}
 	c.Fix = rapid.IntRange(0, 2).Draw(t, "fix")
+	if c.C >= 2 && rapid.IntRange(0, 4).Draw(t, "grownSel") == 0 {
+		// buffer produced by a growing Append with partial frames
+		c.Fix, c.Kr = 3, 0
+		c.A = rapid.IntRange(0, c.C-1).Draw(t, "pre")
+		c.B = rapid.IntRange(1, 40).Draw(t, "srcSamples")
+		c.N = rapid.IntRange(0, 3*c.C+20).Draw(t, "nGrown")
+	}
 	nv := rapid.IntRange(1, 6).Draw(t, "nvals")
 	for i := 0; i < nv; i++ {
 		c.Vals = append(c.Vals, int64(rapid.IntRange(0, 127).Draw(t, "v")))
